@@ -67,6 +67,10 @@ pub fn base_module(base: &J) -> Vec<u8> {
         _ => w += "  (type $t0 (func))\n  (type (func (param i32)))\n  (type $open (sub (struct)))\n",
     }
     w += "  (import \"env\" \"imp\" (func $imp (type $t0)))\n";
+    if base["imp2"] == true {
+        // a second imported function whose numbers of parameters and results differ (replaced before the program runs)
+        w += "  (import \"env\" \"imp2\" (func $imp2 (param i32 i32) (result i32)))\n";
+    }
     w += "  (func $f1 (param i32) (local i64 i64) i32.const 111 drop)\n";
     let locals = match base["locals"].as_str().unwrap_or("none") {
         "a" => "(local i32)",
@@ -488,6 +492,10 @@ fn run_case_comp(case: &J) -> J {
             ev["valid"] = json!(v.is_ok());
             ev["err"] = json!(v.err().unwrap_or_default());
             ev["obs"] = decode(&o).unwrap_or_else(|e| json!({"error":e}));
+            ev["same2"] = json!(match guarded(|| comp.modules[0].encode()) {
+                Ok(o2) => o2 == o,
+                Err(_) => false,
+            });
         }
         Err(m) => {
             ev["encode_panic"] = json!(true);
@@ -511,15 +519,29 @@ fn run_case(case: &J) -> J {
             return ev;
         }
     };
-    let nimp = 1u32;
+    let imp2 = case["base"]["imp2"] == true;
+    let nimp = if imp2 { 2u32 } else { 1u32 };
+    if imp2 {
+        // pre-step: import 1 (two parameters, one result) is replaced by a built function with one f64 local
+        let r = guarded(|| {
+            let mut fb = FunctionBuilder::new(&[DataType::I32, DataType::I32], &[DataType::I32]);
+            fb.add_local(DataType::F64);
+            fb.i32_const(7);
+            fb.replace_import_in_module(&mut module, ImportsID(1));
+        });
+        if let Err(m) = r {
+            ev["skip"] = json!(format!("harness: pre-step replace failed: {}", m));
+            return ev;
+        }
+    }
     let mut trace = vec![];
     for op in case["prog"].as_array().cloned().unwrap_or_default() {
         let name = op["op"].as_str().unwrap().to_string();
         let mut rec = op.clone();
         let r: Result<J, String> = guarded(|| match name.as_str() {
             "add_local" => {
-                let f = op["f"].as_u64().unwrap() as u32; // 1-based local function number
-                let fid = FunctionID(nimp + f - 1);
+                let f = op["f"].as_u64().unwrap() as u32; // 1-based local function number; 0 = the function that replaced import 1
+                let fid = if f == 0 { FunctionID(1) } else { FunctionID(nimp + f - 1) };
                 let ty = dt(op["ty"].as_str().unwrap());
                 let id = match op["via"].as_str().unwrap_or("modifier") {
                     "modifier" => {
@@ -719,6 +741,11 @@ fn run_case(case: &J) -> J {
             ev["valid"] = json!(v.is_ok());
             ev["err"] = json!(v.err().unwrap_or_default());
             ev["obs"] = decode(&o).unwrap_or_else(|e| json!({"error":e}));
+            // encoding again without edits must give the same bytes (the module is left as it was)
+            ev["same2"] = json!(match guarded(|| module.encode()) {
+                Ok(o2) => o2 == o,
+                Err(_) => false,
+            });
         }
         Err(m) => {
             ev["encode_panic"] = json!(true);
